@@ -110,7 +110,20 @@ def random_topo(G, rng):
     return out
 
 
+def api_graph(spec):
+    import apigen
+    from blackbird.utils import to_DiGraph
+    p = apigen.build(spec)
+    with core.quiet():
+        G = to_DiGraph(p)
+    if sorted(G.nodes()) != list(range(len(p.operations))):
+        return "nodes %s for %d operations" % (sorted(G.nodes()), len(p.operations))
+    return None
+
+
 def replay(ctx, data):
+    if data.get("kind") == "api_graph":
+        return api_graph(data["spec"])
     if data.get("kind") == "graph":
         return check_graph(data["text"], random.Random(0))
     return oracles.generic_replay(data)
